@@ -12,75 +12,79 @@ Definition show_fres (r : fres) : string :=
   end.
 Definition check (rs : list rune) : string := digest (show_fres (format_res rs)).
 Definition full (rs : list rune) : string := show_fres (format_res rs).
-Eval vm_compute in ("<<<M339>>>" ++ check (runes_of_ascii "// @lengthOf(
-packet A { repeat rootA
-{ repeat o , BodyLength i64_ `// not a comment` ,  repeatCount @calculatedFrom(""it's"" ) , }
+Eval vm_compute in ("<<<M1942>>>" ++ check (runes_of_ascii "// packet A { u8 x, }
+packet string_ {
+    @tag(4294967296)
+    @calculatedFrom(""" ++ [128512]%N ++ runes_of_ascii """)
+    @calculatedFrom(""1"")
+    leftPad @lengthOf(int) ``,
+    repeat Packet {
+        zchar[0] options1 `line1
+                line2`,
+    },
+    @calculatedFrom("""")
+    float32 u8x,
+    float,
+    i64_ {
+        packetx {
+            i16 falsey,
+            f32 repeatCount `{ , }`,
+        },
+        repeat char[0] i8i8,
+        string o @lengthOf(options1),
+    },
+    i64_ @calculatedFrom(""a\""b"") `a\`,
+    @rightPad()
+    @lengthOf(packetx)
+    match matchKey as stringy {
+        ""a	b"" : body,
+    },
+    // " ++ [27880; 37322]%N ++ runes_of_ascii "
+    @lengthOf(u128)
+    @calculatedFrom(""`tick`"")
+    @rightPad()
     // @lengthOf(
-    ,
-//x
-//x
-@tag( 0 ) falsey @lengthOf( BodyLength
-), @leftPad ( ) @calculatedFrom( ""1"" )
-@lengthOf(int ) match trueish
-as body // trailing space 
-{ [ 007
-, 7
-,
-    ""abc"",
-""x y"" ,  00 , ""// no comment"" ,
-    255, 1
-]: body
-, } , @lengthOf( Pad ) metadata@calculatedFrom( ""it's"" )
-,
-    // `tick` ""quote"" 'q'
-    @leftPad() @calculatedFrom(	""" ++ [233]%N ++ runes_of_ascii "t" ++ [233]%N ++ runes_of_ascii """ ) char falsey `" ++ [233]%N ++ runes_of_ascii "`,char[
-007 ] metadata @lengthOf( chars) , @rightPad ( '0'
-) u8 // c
-roots@calculatedFrom( ""packet"" ) ,
-    string_ MetaDataX ,@lengthOf( Z9_ ) @leftPad ( '\x00' ) /// triple
-@rightPad
-    ( ' ' //
-) MetaDataX
-    `two words`  ,zchar[
-0
-    ]
-body// " ++ [27880; 37322]%N ++ runes_of_ascii "
-`line1
-line2` , } packet
-    // packet A { u8 x, }
-    uint8x {@rightPad  ( '0' )
-    //	t
-    char[]stringy,MetaDataX Z9_ , i8 Logon , } root packet
-    //	t
-    u // " ++ [128512]%N ++ runes_of_ascii " emoji
-{ int64 Z9_
-    , zchar[ 00 ]
-    string_
-    //
-    `" ++ [28040; 24687; 31867; 22411]%N ++ runes_of_ascii "` ,
-    @calculatedFrom(""a\""b""
-    )
-@tag( 3  ) @rightPad (
-'0' ) repeat u32 packetx `two words` , char[42
-] string_ , repeat Header lengthOf ,
+    repeat falsey string_ `" ++ [28040; 24687; 31867; 22411]%N ++ runes_of_ascii "`,
+    string As `it's`,
+    @calculatedFrom(""" ++ [28040; 24687]%N ++ runes_of_ascii """)
+    repeat rootA {
+        float64 body,
+    },
 }
-options // packet A { u8 x, }
-{	} packet Header
-// " ++ [128512]%N ++ runes_of_ascii " emoji
-// packet A { u8 x, }
-{ @rightPad
-(//x
-)metadata { char[ 65535// c
-]o, repeat x
-// c
-/// triple
-{char[
-4294967296 ]  options1 , }
-// c
-// a // b
-,
-roots Header, } , }
-")).
+
+options {
+    zchar = true;
+    i8i8 = 3;
+}
+
+packet leftPad {
+    @calculatedFrom("""")
+    //x
+    @leftPad(' ')
+    @calculatedFrom(""abc"")
+    repeat MetaDataX {
+        char[] Pad,
+        body @lengthOf(Foo),
+        uint64 i8i8,
+        char[42] options1 @calculatedFrom(""x y""),
+    },
+}
+
+packet stringy {
+    @calculatedFrom(""" ++ [28040; 24687]%N ++ runes_of_ascii """)
+    BodyLength len,
+    @lengthOf(u)
+    i8i8 metadata,
+    @calculatedFrom(""a\\"")
+    //x
+    packetx,
+    f64 i8i8 @lengthOf(Header),
+    metadata `
+        `,
+    @lengthOf(int)
+    repeat falsey,
+    repeat char[] trueish,
+}")).
 Eval vm_compute in ("<<<M225>>>" ++ check (runes_of_ascii "packet T
     // " ++ [128512]%N ++ runes_of_ascii " emoji
     { match repeatCount as
@@ -354,834 +358,813 @@ Logout // c63a
 , } , // c66a
   // c66b
 } ")).
-Eval vm_compute in ("<<<M1396>>>" ++ check (runes_of_ascii "
-options  { StringPrefixLenType
+Eval vm_compute in ("<<<M1759>>>" ++ check (runes_of_ascii "
 
-    =u8 ;	ArrayPrefixLenType  = u32
-    ;
-FixedStringPadFromLeft = true ;	FixedStringPadChar
+  options{ StringPrefixLenType
 =
-' ' ;
 
-} packet Leg 
-{ 
-} packet 
-Heartbeat	{
-zchar[  6]
-msgKind , @rightPad ( 
-'0'
+    u8
 
-    )
+;
 
-    char[ 
-3
+ArrayPrefixLenType 
+=	u32
+    ;
+FixedStringPadFromLeft =
 
-]  Qty 
-,
+true
+    ;
+	FixedStringPadChar 
+=
+' '	;
 
-zchar[ 9]
-Side2  ,
+    } packet
+Leg
+{ } packet
+Heartbeat
 
-    i8 Acct
-,  }
-    packet  Logout
-    {
-int8
-x	, }packet
-
-    Order
-
-{ char[] Acct 
-,
+{
     zchar[
 
-    8
-]	count
+6
+]
+msgKind ,
 
-,
-u32 OrderId
-,
+    @rightPad( '0'
 
-    uint8	lastPx
+    )	char[ 3
+    ]
+Qty
+
+,	zchar[
+9	] Side2 
+,
+	i8 Acct
 
     ,
-	u16 clOrdID 
-, 
+}  packet
+    Logout	{
+	int8 
+x
+
+, } 
+packet
+Order 
+{ char[]Acct 
+,
 zchar[
-7
-    ]
-Note ,
-	}
-
-    root packet
-
-Reject{
-@leftPad
-(
-    ' ' )char[
 8
-] Side2  ,
-i8
-clOrdID
-, repeat
+]	count 
+,	u32
+OrderId,
 
-    f32
+uint8 lastPx
 
-    x, u32
-	lastPx,
-match	lastPx
+    ,
+    u16
 
-as
-	Body
+clOrdID,  zchar[
+7
+
+    ]Note
+,
+	}
+root
+    packet Reject {@leftPad (' ' ) char[
+8 ]
+    Side2 ,
+
+    i8
+clOrdID  , 
+repeat 
+f32
+
+    x , u32 lastPx
+
+,
+match
+    lastPx
+
+as Body{ [ 30  ,
+	147 ] : Heartbeat ,134 : Leg
+	,	183 
+:
+	Logout
+	,
+    40 
+:
+	Order ,	}	,
+u16	Ref
+@calculatedFrom(
+    ""CRC32""	)
+
+    , } ")).
+Eval vm_compute in ("<<<M1797>>>" ++ check (runes_of_ascii "packet options1 {
+    @leftPad('0')
+    @rightPad('\x00')
+    @tag(255)
+    /// triple
+    repeat string As `
+    `,
+    @calculatedFrom("""")
+    @calculatedFrom(""x y"")
+    a1 {
+        Foo {
+            trueish {
+                tag @lengthOf(i8i8) `doc`,
+            },
+            zchar[00] f32a @lengthOf(calculatedFrom),
+            repeat zchar[1] stringy `{ , }`,
+        },
+        uint64 repeatCount @lengthOf(asx),
+        char[42] lengthOf @calculatedFrom(""packet""),
+        char[10] calculatedFrom @lengthOf(BodyLength),
+    },
+    asx `// not a comment`,
+}
+
+options {
+    matchKey = """ ++ [128512]%N ++ runes_of_ascii """
+    falsey = ""a\""b"";
+    A = ""CRC32""
+    msg_type = """ ++ [233]%N ++ runes_of_ascii "t" ++ [233]%N ++ runes_of_ascii """;
+}
+
+MetaData o {
+}
+
+packet Pad {
+}")).
+Eval vm_compute in ("<<<M1768>>>" ++ check (runes_of_ascii "MetaData//	t
+    body
+    { 
+T
+	calculatedFrom
+
+    , 
+string f32a	`line1
+line2`
+    ,  leftPad BodyLength
+`tab	here`
+,
+
+    }options {
+}  MetaData
+
+options1
 
     {
-[  30
-    ,  147
 
-] :
-	Heartbeat,
-
-134 :Leg
-
-,183 
-: Logout
-,
-
-40	:
-    Order
+    char[
+3 
+]
+    MetaDataX 
+	// " ++ [128512]%N ++ runes_of_ascii " emoji
+	/// triple
+  	`" ++ [28040; 24687; 31867; 22411]%N ++ runes_of_ascii "`
+    ,
+    BodyLength
+x `
+`
 	,
-	}
-,u16
-Ref @calculatedFrom(
 
-""CR\
-C32""  )
-    ,
-}")).
-Eval vm_compute in ("<<<M52>>>" ++ check (runes_of_ascii "  MetaData
-    // " ++ [27880; 37322]%N ++ runes_of_ascii "
-    packetx { zchar[ 7 ] leftPad
-`// not a comment` ,	}	packet i64_{@calculatedFrom(
-"""" )
-// trailing space 
-// c
-@lengthOf(
-x_y_z ) @tag( 00
-)
-repeatCount
-    // packet A { u8 x, }
-    @calculatedFrom(""1"" ), } packet falsey { int16
-_x
-@calculatedFrom(	""it's"") , } // @lengthOf(
-root
-packet matchKey
-    {repeat u32  Pad  `" ++ [233]%N ++ runes_of_ascii "`, zchar[ 7 ]
-    leftPad
-,match chars as lengthOf
-{ 1 :
-o
-    42 : chars
-// trailing space 
-// c
-,
-}//x
-, repeat
-zchar[
-    255]
-a1, matchKey //
-Packet
-    // `tick` ""quote"" 'q'
-    ,
-f32
-    tag
-    ,
-// @lengthOf(
-// trailing space 
-@calculatedFrom(  ""a\""b"" ) @leftPad( ' ' ) @lengthOf(
-T) stringy
-@lengthOf( o) ,packetx  i64_ ,}
-/// triple
-")).
-Eval vm_compute in ("<<<M122>>>" ++ check (runes_of_ascii "
-packet u128  { // trailing space 
-string  Header `say ""hi""` , repeat crc
-f32a,
-    char[ 10
-    ] _x	,	@calculatedFrom( ""x y""	) repeat
-    //
-    charz	{
-    Logon @lengthOf(T) `crlf
+u16
+    tag `say ""hi""`
+
+    , u8 float ,  float32 As `
+`
+	,i8i8 
+Z9_
+`
+`	,  }packet u {@tag( 42 )	options1 // c
+    o
+	`crlf
 line`
-, repeat char[ // trailing space 
-0123456789 ]Z9_
-    `crlf
-line` ,
-    } ,
-    match Packet
-    as
-// " ++ [128512]%N ++ runes_of_ascii " emoji
-// `tick` ""quote"" 'q'
-float // a // b
-{
-    1
-:  lengthOf }  ,  MetaDataX , match x as
-u8x { 10 :crc } , } root packet // `tick` ""quote"" 'q'
-Header // a // b
-{ @calculatedFrom( ""{,}"") a1
-    {  char[
-    // packet A { u8 x, }
-    007 ] pack ,stringy //x
-zchar
-    , repeat
-char[]
-    // " ++ [128512]%N ++ runes_of_ascii " emoji
-    o `it's`	, } , }")).
-Eval vm_compute in ("<<<M1116>>>" ++ check (runes_of_ascii "// top
-MetaData // c0
-Packet // c1
-{ // c2
-} // c3
-packet // c4
-charz // c5
-{ // c6
-Foo // c7
-asx // c8
-`it's` // c9
-, // c10
-@lengthOf( // c11
-T // c12
-) // c13
-@calculatedFrom( // c14
-"""" // c15
-) // c16
-@calculatedFrom( // c17
-""x y"" // c18
-) // c19
-zchar[ // c20
-007 // c21
-] // c22
-repeatCount // c23
-@lengthOf( // c24
-int // c25
-) // c26
-`a\` // c27
-, // c28
-i8 // c29
-string_ // c30
-, // c31
-repeat // c32
-options1 // c33
-Pad // c34
-, // c35
-} // c36
-root // c37
-packet // c38
-Packet // c39
-{ // c40
-int8 // c41
-float // c42
-`doc` // c43
-, // c44
-} // c45
+,
+    @calculatedFrom(
+
+""`tick`""
+
+// packet A { u8 x, }
+// a // b
+
+  )
+
+repeat
+char[]	a1 
+	    //x
+	,
+}
+
+options
+	{	uint8x
+	=	true
+A
+	= // `tick` ""quote"" 'q'
+
+7	;	// packet A { u8 x, }
+
+	len
+= """ ++ [128512]%N ++ runes_of_ascii """
+} ")).
+Eval vm_compute in ("<<<M1345>>>" ++ check (runes_of_ascii "options {
+    LittleEndian = false;
+    ArrayPrefixLenType = u8;
+    FixedStringPadFromLeft = true;
+    FixedStringPadChar = '0';
+}
+packet Heartbeat {
+    string lastPx,
+    uint8 Qty,
+    i64 Acct,
+    char[4] Ref,
+}
+packet Fill {
+    uint8 Ref,
+    Heartbeat,
+    f32 OrderId,
+    repeat f32 x,
+}
+root packet Order {
+    zchar[2] OrderId,
+    zchar[2] Acct,
+    zchar[1] Note,
+    zchar[9] Qty,
+    string price,
+    string tag7,
+    u32 x,
+    match x as Body {
+        123 : Fill,
+        112 : Heartbeat,
+    },
+    u32 seqNo @calculatedFrom(""CR\
+C32""),
+}
 ")).
-Eval vm_compute in ("<<<M1652>>>" ++ check (runes_of_ascii "options
-
-    { 
+Eval vm_compute in ("<<<M163>>>" ++ check (runes_of_ascii "options { As = // trailing space 
+zchar[ 4294967296] ; } //	t
+packet len // packet A { u8 x, }
+{ @lengthOf(
+_x) match
+    // c
+    lengthOf
+    as
+//
+// `tick` ""quote"" 'q'
+string_// c
+{
+    [ 4294967296 ]: i64_ ""a	b"": o
+,
+}
+, leftPad
+    @calculatedFrom( ""`tick`""	)
+// trailing space 
+// `tick` ""quote"" 'q'
+,@leftPad( '\x00' ) repeat charz /// triple
+msg_type
+,
+repeat i8
+Foo , }packet msg_type {
+//x
+// @lengthOf(
+@leftPad (
+'0'
+)
+u64 repeatCount @calculatedFrom(
+""" ++ [28040; 24687]%N ++ runes_of_ascii """) ,// packet A { u8 x, }
+}
+")).
+Eval vm_compute in ("<<<M48>>>" ++ check (runes_of_ascii "root	packet Logon { @calculatedFrom( """" ) @lengthOf( int ) @tag( 3
+) match _x
+as // a // b
+i64_ { 10:asx
+// `tick` ""quote"" 'q'
+/// triple
+""" ++ [128512]%N ++ runes_of_ascii """ : crc ,[ 0
+,
+007
+] : float  ,// trailing space 
+}
+    , repeat //	t
+uint16
+leftPad  ,
+    }
+    // " ++ [27880; 37322]%N ++ runes_of_ascii "
+    packet charz
+{  } MetaData
+int {
+//
+// trailing space 
+zchar[ 4294967296 ]matchKey
+,
+asx rootA
+    `doc`
+, Foo string_ `// not a comment`
+,
+    char[]u8x , // `tick` ""quote"" 'q'
+roots
+float , }
+")).
+Eval vm_compute in ("<<<M1334>>>" ++ check (runes_of_ascii "options
+{ 
 LittleEndian
+=  false ;
+StringPrefixLenType 
+= u8
 
-    =true
-    ; StringPrefixLenType  =	u64	;
-ArrayPrefixLenType=
-    u16 ;FixedStringPadFromLeft 
-=
-false
-;FixedStringPadChar
-=	' ' 
-; } packet 
-Logon
+    ; ArrayPrefixLenType=	u64
+; 
+FixedStringPadFromLeft = false ; FixedStringPadChar
 
-{ zchar[
+    =' ' ;	}
+	packet  Reject
 
-5
+    {repeat	char[
+    4] seqNo , string  Px , 
+}	root
+    packet Trade  {
+    @rightPad
+	(
+
+'0')
+	char[ 
+2
 
     ]
-Side2 ,
+	msgKind  ,
+    repeat
+f64 price,InAcct79 { repeat Reject , zchar[  7]
+	OrderId
+	, }
+	,Reject	,}
+")).
+Eval vm_compute in ("<<<M1807>>>" ++ check (runes_of_ascii "packet a1 {
+    @calculatedFrom(""`tick`"")
+    uint32 charz `crlf
+    line`,
+    // c
+    //x
+    a1 `tab	here`,
+}
+
+options {
+    // " ++ [27880; 37322]%N ++ runes_of_ascii "
+    // " ++ [128512]%N ++ runes_of_ascii " emoji
+    stringy = 255;
+    metadata = 4294967296
+    pack = string;
+    crc = string;
+}
+
+root packet crc {
+    @tag(42)
+    @calculatedFrom(""abc"")
+    @rightPad('0')
+    u128 u8x,
+    @lengthOf(len)
+    uint16 int,
+}")).
+Eval vm_compute in ("<<<M1745>>>" ++ check (runes_of_ascii "packet float {
+    // c2
+    @rightPad()
+    // c5a
+    // c5b
+    rootA @lengthOf(trueish),
+    // c10
+    stringy @lengthOf(matchKey),// c15a
+    // c15b
+    char[4294967296] pack @lengthOf(uint8x),
+    // c23
+}// c24
+
+root packet trueish {
+    // c28
+    repeat uint64 u128 `line1
+        line2`,
+    // c33
+}
+// c34")).
+Eval vm_compute in ("<<<M1381>>>" ++ check (runes_of_ascii "options
+{
+
+    LittleEndian= 
+true; }  packet
+Logon	{	u8	x 
+,
+
+string
+	user
+,}
+	packet 
+Logout 
+{u16
+    reason  ,
+
+    }packet Empty
+
+    { }
+    root
+
+packet
+Frame
+{
+    u16
+MsgType
+,
+    u8  BodyLen @lengthOf(Body )  ,
+	u8
+flags ,	Logon
+Body ,
+	u32 
+trailer ,
+
+    } ")).
+Eval vm_compute in ("<<<M1504>>>" ++ check (runes_of_ascii "MetaData BodyLength {
+    uint16 leftPad `" ++ [233]%N ++ runes_of_ascii "`,
+    uint8x asx,
+    len lengthOf `// not a comment`,
+    string uint8x `doc`,
+}
+
+options {
+    i8i8 = 0
+    lengthOf = 0123456789;
+}
+
+packet uint8x {
+    @lengthOf(pack)
+    float64 u8x @lengthOf(asx),
+}")).
+Eval vm_compute in ("<<<M1328>>>" ++ check (runes_of_ascii "packet
+
+    Logon
+    {
+
+string
+
+    user
+,} root	packet	Frame{ u8 K 
+,
+    match  K 
+as Body
+	{ 1
+:
+    Logon ,2
+: Logout  ,
+
+}  ,
+	Tail, }
+
+    packet
+Logout
+	{ u16	reason ,
+
+}
+	packet  Tail
+{u32	crc
+    ,  }
+")).
+Eval vm_compute in ("<<<M38>>>" ++ check (runes_of_ascii "options
+{ falsey
+    /// triple
+    = false ; falsey=
+    //
+    int16// `tick` ""quote"" 'q'
+;
+    // `tick` ""quote"" 'q'
+    A =
+    // trailing space 
+    u32  ;
+    trueish	= 1  ;
+    }
+")).
+Eval vm_compute in ("<<<M1644>>>" ++ check (runes_of_ascii "options {
+    As = true
+    MetaDataX = true
+}
+
+packet A {
+    repeat calculatedFrom `say ""hi""`,
+}
+
+MetaData crc {
+    u crc,
+    uint32 body,
+    i16 stringy `u8 x,`,
+}")).
+Eval vm_compute in ("<<<M396>>>" ++ check (runes_of_ascii "packet uint8x uint8x
+{ match pack
+    as msg_type	{
+    0123456789 :	float
+}
+,
+} packet //	t
+a1
+    { } options {packetx
+    = '\x00'	; u128= ""a	b""  ; }
+")).
+Eval vm_compute in ("<<<M543>>>" ++ check (runes_of_ascii "packet uint8x
+{ mat'1'ch pack
+    as msg_type	{
+    0123456789 :	float
+}
+,
+} packet //	t
+a1
+    { } options {packetx
+    = '\x00'	; u128= ""a	b""  ; }
+")).
+Eval vm_compute in ("<<<M482>>>" ++ check (runes_of_ascii "packet uint8x
+{ match pack
+    as msg_type	{
+    0123456789 :	float
+}
+,
+} packet //	t
+a1
+    { } { options packetx
+    = '\x00'	; u128= ""a	b""  ; }
+")).
+Eval vm_compute in ("<<<M473>>>" ++ check (runes_of_ascii "packet uint8x
+{ match pack
+    as msg_type	{
+    0123456789 :	float
+}
+,
+} packet //	t
+a1
+    ] } options {packetx
+    = '\x00'	; u128= ""a	b""  ; }
+")).
+Eval vm_compute in ("<<<M530>>>" ++ check (runes_of_ascii "packet uint8x
+{ match pack
+    as msg_type	{
+    0123456789 :	float
+}
+,
+} packet //	t
+a1
+    { } options {packetx
+    = '\x00'	; u128= ""a	b""  ; 
+")).
+Eval vm_compute in ("<<<M440>>>" ++ check (runes_of_ascii "packet uint8x
+{ match pack
+    as msg_type	{
+    0123456789 :	
+}
+,
+} packet //	t
+a1
+    { } options {packetx
+    = '\x00'	; u128= ""a	b""  ; }
+")).
+Eval vm_compute in ("<<<M490>>>" ++ check (runes_of_ascii "packet uint8x
+{ match pack
+    as msg_type	{
+    0123456789 :	float
+}
+,
+} packet //	t
+a1
+    { } options {
+    = '\x00'	; u128= ""a	b""  ; }
+")).
+Eval vm_compute in ("<<<M430>>>" ++ check (runes_of_ascii "packet uint8x
+{ match pack
+    as msg_type	{
+     :	float
+}
+,
+} packet //	t
+a1
+    { } options {packetx
+    = '\x00'	; u128= ""a	b""  ; }
+")).
+Eval vm_compute in ("<<<M1298>>>" ++ check (runes_of_ascii "packet
+A
+{ 
+u8 a,
+}
+
+packet
+    B {
+
+u16  b
+,} 
+root	packet	P
+{ u8
+K
+
+,
+
+    match	K
+
+as M	{1
+    :
+A,
+
+1	: 
+B 
+, }
+,
+
     }
 
-    root
-    packet
-	Logout { repeat
-
-i64 
-Tail 
-,
-	Logon 
-,
-
-repeat
-
-i16 OrderId
-    ,
-	char[]
-venue
-,
-    uint64
-
-x ,
-repeat i16
-
-    count
-
-    , u8
-	Flags	,
-
-    match 
-Flags	as
-    Body
-
-    { 25 :
-    Logon ,
-} ,
-u16
-    Qty@calculatedFrom(	""CR\
-C32""
-    ) ,
-
-} ")).
-Eval vm_compute in ("<<<M1852>>>" ++ check (runes_of_ascii "options {
-LittleEndian	=
-    true
-;
-
-    StringPrefixLenType =u64 ; ArrayPrefixLenType= u16
-;FixedStringPadFromLeft = false  ;
-	FixedStringPadChar
-	=
-
-' '
-    ;
-	} 
-packet
-	Logon
-
-{ zchar[
-	5]
-Side2
-	, }	root  packet Logout	{
-	repeat i64
-Tail
-, Logon ,
-
-repeat
-    i16
-	OrderId
-, char[]
-
-venue	,
-uint64  x,
-	repeat	i16
-	count	,
-u8
-    Flags
-, 
-match
-
-    Flags
-	as
-	Body { 25
-
-    : Logon , }
-	,
-    u16
-Qty	@calculatedFrom( ""CRC32""
-
-)
-    ,	}
 ")).
-Eval vm_compute in ("<<<M1329>>>" ++ check (runes_of_ascii "packet Frame {
-    u8 HK,
-    u8 BK,
-    u8 TK,
-    match HK as Hdr {
-        1 : HdrA,
-        2 : HdrB,
-    },
-    match BK as Body {
-        1 : BodyA,
-        2 : BodyB,
-    },
-    match TK as Trl {
-        1 : TrlA,
-    },
+Eval vm_compute in ("<<<M1585>>>" ++ check (runes_of_ascii "options {
 }
-packet HdrA {
+
+MetaData u8x {
+    uint8x body `crlf
+    line`,
+    calculatedFrom body,
+}
+
+options {
+}
+
+root packet options1 {
+}")).
+Eval vm_compute in ("<<<M1837>>>" ++ check (runes_of_ascii "packet B {
     u8 a,
 }
-packet HdrB {
-    u16 b,
-}
-packet BodyA {
-    u32 c,
-}
-packet BodyB {
-    u64 d,
-}
-packet TrlA {
-    u8 e,
-}
-root packet Msg {
-    Frame,
-    u8 x,
-}
-")).
-Eval vm_compute in ("<<<M74>>>" ++ check (runes_of_ascii "options{ u = 7
-    // " ++ [27880; 37322]%N ++ runes_of_ascii "
-    roots
-=zchar[
-65535
-    ]
-msg_type = """ ++ [233]%N ++ runes_of_ascii "t" ++ [233]%N ++ runes_of_ascii """
-; x =false
-    } MetaData string_ { char[ // trailing space 
-42
-//x
-// " ++ [128512]%N ++ runes_of_ascii " emoji
-]
-i8i8 `" ++ [28040; 24687; 31867; 22411]%N ++ runes_of_ascii "`	, u8
-    x_y_z
-, packetx lengthOf``
-    // " ++ [27880; 37322]%N ++ runes_of_ascii "
-    ,
-T Header `line1
-line2` ,
-char[] // " ++ [27880; 37322]%N ++ runes_of_ascii "
-u8x `two words` ,}packet
-float //x
-{
-    calculatedFrom
-    ,
-@rightPad ( '0'
-) char[
-    3
-] u128 , } 	 ")).
-Eval vm_compute in ("<<<M1688>>>" ++ check (runes_of_ascii "packet tag {
-}
 
-packet packetx {
-    @calculatedFrom(""x y"")
-    @tag(42)
-    @lengthOf(As)
-    char a1 `two words`,
-    @leftPad('\x00')
-    @tag(10)
-    @lengthOf(u)
-    char[] falsey,
-    // " ++ [27880; 37322]%N ++ runes_of_ascii "
-}//
-
-MetaData f32a {
-    string u128,
-    roots stringy,
-    Header body,
-    float options1 `it's`,
-    i8i8 options1 `" ++ [28040; 24687; 31867; 22411]%N ++ runes_of_ascii "`,
+root packet P {
+    u8 K,
+    u8 L @lengthOf(Body),
+    match K as Body {
+        1 : B,
+    },
 }")).
-Eval vm_compute in ("<<<M321>>>" ++ check (runes_of_ascii "
-options
-{ a1 = '\x00'
-As
-= ""{,}"" u8x
-=//x
-""a	b""
-    ; asx
-    = u64;
-o
-// @lengthOf(
+Eval vm_compute in ("<<<M1164>>>" ++ check (runes_of_ascii "MetaData leftPad { chars MetaDataX , } packet repeatCount { char[
 // c
-=0123456789 } packet Header
-{
-    //
-    @lengthOf(x // trailing space 
-)
-    // " ++ [27880; 37322]%N ++ runes_of_ascii "
-    repeat
-falsey { repeatCount
-    trueish
-`u8 x,` , } ,
-// `tick` ""quote"" 'q'
-// " ++ [128512]%N ++ runes_of_ascii " emoji
-zchar[
-65535 ] x
-    ,
+255 ] uint8x `" ++ [233]%N ++ runes_of_ascii "` , } MetaData pack { As Foo , }")).
+Eval vm_compute in ("<<<M906>>>" ++ check (runes_of_ascii "packet A {
+  match k as n {
+    [""a"", ""bb"", ""c c"", ""d"", ""e"", ""f"", ""g"", ""h"", ""i"", ""j"", ""k"", ""l""] : B,
+    2 : C
+  },
 }")).
-Eval vm_compute in ("<<<M1616>>>" ++ check (runes_of_ascii "
-options
-{ pack 	 // `tick` ""quote"" 'q'
-		=	0123456789
-}packet
-metadata{
-@leftPad(' '
-    ) stringy  @lengthOf(	_x
-    ) ,
-
-repeat u8
-int 
-`{ , }`
-,
-	@leftPad	//	t
-      (
-'0'	)repeat	char msg_type `it's`  ,
-	}
-	MetaData
-x_y_z {// trailing space 
-	}
-")).
-Eval vm_compute in ("<<<M1655>>>" ++ check (runes_of_ascii "
-options { 
-Z9_
-	=  // trailing space 
-	""packet""
-	; 
-float 
-= false 
-;
-A
-	= ' '
+Eval vm_compute in ("<<<M494>>>" ++ check (runes_of_ascii "packet uint8x
+{ match pack
+    as msg_type	{
+    0123456789 :	float
 }
-
-// c
-	  MetaData 
-pack 
-{zchar[3
-
-] leftPad , zchar 
-falsey  `it's`
 ,
-char[] 
-repeatCount , char[ 65535// " ++ [128512]%N ++ runes_of_ascii " emoji
-  ]  Z9_ ,
-} 
-	    //	t
-")).
-Eval vm_compute in ("<<<M1538>>>" ++ check (runes_of_ascii "// top
-MetaData uint8x {
+} packet //	t
+a1
+    { } options {")).
+Eval vm_compute in ("<<<M1285>>>" ++ check (runes_of_ascii "// top
+root
+    // c0
+packet // c1a
+  // c1b
+P
     // c2
-    char[] f32a `// not a comment`,// c6
-    float32 roots,// c9
-    char[7] u8x,// c14
-    zchar[10] f32a,// c19
-    u64 pack,// c22
-    u16 pack,// c25
-}// c26")).
-Eval vm_compute in ("<<<M1925>>>" ++ check (runes_of_ascii "
-packet  A 
-{match 
-k as
-
-n
-{  [
-
-    ""a"" 
-, 
-22
-
-,	""c c"", 4
-
-    ,
-
-    ""e"",
-
-    66
-
-    , ""g""
-	,	8 ,  ""i"" 
-, 10 
-, ""k"" ,12
-
-    ]
-	:
-    B
-
-2 :
-C 
-}, }
-
-")).
-Eval vm_compute in ("<<<M421>>>" ++ check (runes_of_ascii "packet uint8x
-{ match pack
-    as msg_type msg_type	{
-    0123456789 :	float
-}
+{ // c3
+string s // c5a
+  // c5b
 ,
-} packet //	t
-a1
-    { } options {packetx
-    = '\x00'	; u128= ""a	b""  ; }
-")).
-Eval vm_compute in ("<<<M508>>>" ++ check (runes_of_ascii "packet uint8x
-{ match pack
-    as msg_type	{
-    0123456789 :	float
-}
+    // c6
+} ")).
+Eval vm_compute in ("<<<M373>>>" ++ check (runes_of_ascii "  MetaData leftPad { /// triple
+char[] body,  As options1
+//
+/// triple
 ,
-} packet //	t
-a1
-    { } options {packetx
-    = '\x00'	int16 u128= ""a	b""  ; }
+o
+    //x
+    i64_
+, }
 ")).
-Eval vm_compute in ("<<<M526>>>" ++ check (runes_of_ascii "packet uint8x
-{ match pack
-    as msg_type	{
-    0123456789 :	float
-}
-,
-} packet //	t
-a1
-    { } options {packetx
-    = '\x00'	; u128= ""a	b""  ; ; }
-")).
-Eval vm_compute in ("<<<M428>>>" ++ check (runes_of_ascii "packet uint8x
-{ match pack
-    as msg_type	}
-    0123456789 :	float
-}
-,
-} packet //	t
-a1
-    { } options {packetx
-    = '\x00'	; u128= ""a	b""  ; }
-")).
-Eval vm_compute in ("<<<M445>>>" ++ check (runes_of_ascii "packet uint8x
-{ match pack
-    as msg_type	{
-    0123456789 :	float
-
-,
-} packet //	t
-a1
-    { } options {packetx
-    = '\x00'	; u128= ""a	b""  ; }
-")).
-Eval vm_compute in ("<<<M493>>>" ++ check (runes_of_ascii "packet uint8x
-{ match pack
-    as msg_type	{
-    0123456789 :	float
-}
-,
-} packet //	t
-a1
-    { } options {f64
-    = '\x00'	; u128= ""a	b""  ; }
-")).
-Eval vm_compute in ("<<<M711>>>" ++ check (runes_of_ascii "// @lengthOf(
-packet i8i8 { u128 o , }
-options { MetaDataX = true;
-    BodyLength =""packet"" x_y_z= 007
-""crc //x
-= ""abc"" ;
-    msg_type =
-i16 }")).
-Eval vm_compute in ("<<<M709>>>" ++ check (runes_of_ascii "// @lengthOf(
-packet i8i8 { u128 o , }
-options { MetaDataX = true;
-    BodyLength =""packet"" x_y_z= 007
-crc //x
-= ""abc"" 
-    msg_type =
-i16 }")).
-Eval vm_compute in ("<<<M1389>>>" ++ check (runes_of_ascii "packet A {
-    match k as n {
-        [
-            1, ""bb"", 007, ""d"", 5,
-            ""f"", 7, ""h""
-        ] : B,
-        2 : C,
-    },
+Eval vm_compute in ("<<<M871>>>" ++ check (runes_of_ascii "packet A {
+  match k as n {
+    [""a"", 22, ""c c"", 4, ""e"", 66, ""g"", 8, ""i""] : B,
+    2 : C
+  },
 }")).
-Eval vm_compute in ("<<<M1759>>>" ++ check (runes_of_ascii "packet A {
-    match k as n {
-        [
-            ""a"", ""bb"", 007, ""d"", ""e"",
-            66
-        ] : B,
-        2 : C,
-    },
-}")).
-Eval vm_compute in ("<<<M1510>>>" ++ check (runes_of_ascii "MetaData leftPad {
-    chars MetaDataX,
-}
-
-packet repeatCount {
-    char[255] uint8x `" ++ [233]%N ++ runes_of_ascii "`,
-}
-
-MetaData pack {
-    As Foo,
-}")).
-Eval vm_compute in ("<<<M1158>>>" ++ check (runes_of_ascii "MetaData leftPad { chars MetaDataX , } packet
-// c
-repeatCount { char[ 255 ] uint8x `" ++ [233]%N ++ runes_of_ascii "` , } MetaData pack { As Foo , }")).
-Eval vm_compute in ("<<<M1617>>>" ++ check (runes_of_ascii "MetaData zchar {
-    roots A,
-    char[] falsey `line1
-    line2`,
-    // " ++ [128512]%N ++ runes_of_ascii " emoji
-    // @lengthOf(
-    int crc,
-}//	t")).
-Eval vm_compute in ("<<<M1772>>>" ++ check (runes_of_ascii "packet A {
+Eval vm_compute in ("<<<M226>>>" ++ check (runes_of_ascii "// a // b
+packet Pad {
+    char[] // packet A { u8 x, }
+Z9_ @lengthOf( Pad
+) `{ , }` , } 	 ")).
+Eval vm_compute in ("<<<M1692>>>" ++ check (runes_of_ascii "packet A {
     B b `a
-        b
-      c`,
+    
+    b`,
     B `a
-        b
-      c`,
+    
+    b`,
     repeat B bs `a
-        b
-      c`,
+    
+    b`,
 }")).
-Eval vm_compute in ("<<<M49>>>" ++ check (runes_of_ascii "options  { f32a = true;  metadata =""CRC32"" ;
-body // " ++ [27880; 37322]%N ++ runes_of_ascii "
-=
-char ; A =
-float64	;
-} MetaData
-    rootA { }")).
-Eval vm_compute in ("<<<M671>>>" ++ check (runes_of_ascii "// @lengthOf(
-packet i8i8 { u128 o , }
-options { MetaDataX = true;
-    BodyLength =""packet"" x_y_z= 0")).
-Eval vm_compute in ("<<<M855>>>" ++ check (runes_of_ascii "packet A {
+Eval vm_compute in ("<<<M850>>>" ++ check (runes_of_ascii "packet A {
   match k as n {
-    [""a"", ""bb"", ""c c"", ""d"", ""e"", ""f"", ""g"", ""h""] : B
+    [""a"", ""bb"", 007, ""d"", ""e"", 66, ""g""] : B
     2 : C
   },
 }")).
-Eval vm_compute in ("<<<M580>>>" ++ check (runes_of_ascii "
-packet
-    asx {match u128 char[ lengthOf
-{
-//	t
-// `tick` ""quote"" 'q'
-255 : x ,
-    } ,	}")).
-Eval vm_compute in ("<<<M636>>>" ++ check (runes_of_ascii "
-packet
-    asx {match u128 as lengthOf
-{
-//	t
-// `ti/ck` ""quote"" 'q'
-255 : x ,
-    } ,	}")).
-Eval vm_compute in ("<<<M575>>>" ++ check (runes_of_ascii "
-packet
-    asx {match u64 as lengthOf
-{
-//	t
-// `tick` ""quote"" 'q'
-255 : x ,
-    } ,	}")).
-Eval vm_compute in ("<<<M572>>>" ++ check (runes_of_ascii "
-packet
-    asx {match  as lengthOf
-{
-//	t
-// `tick` ""quote"" 'q'
-255 : x ,
-    } ,	}")).
-Eval vm_compute in ("<<<M852>>>" ++ check (runes_of_ascii "packet A {
+Eval vm_compute in ("<<<M1426>>>" ++ check (runes_of_ascii "packet A {
+    match k as n {
+        [1, 22, 007, 4, 5] : B,
+        2 : C,
+    },
+}")).
+Eval vm_compute in ("<<<M848>>>" ++ check (runes_of_ascii "packet A {
   match k as n {
-    [1, 22, 007, 4, 5, 66, 7, 8] : B,
+    [1, 22, ""c c"", 4, 5, ""f"", 7] : B
     2 : C
   },
 }")).
-Eval vm_compute in ("<<<M1917>>>" ++ check (runes_of_ascii "
+Eval vm_compute in ("<<<M820>>>" ++ check (runes_of_ascii "packet A {
+  match k as n {
+    [""a"", 22, ""c c"", 4, ""e""] : B
+    2 : C
+  },
+}")).
+Eval vm_compute in ("<<<M789>>>" ++ check (runes_of_ascii "packet A {
+  match k as n {
+    [""a"", ""bb"", ""c c""] : B,
+    2 : C
+  },
+}")).
+Eval vm_compute in ("<<<M1835>>>" ++ check (runes_of_ascii "MetaData
+	M
+	{u8
+    x `a
+    b
+  c`
+, 
+T
+
+    t
+
+`a
+    b
+  c`,} ")).
+Eval vm_compute in ("<<<M1127>>>" ++ check (runes_of_ascii "// top
 MetaData
-x
-{x
-    Packet ,
-i32	lengthOf
-	, 	 // `tick` ""quote"" 'q'
-	  }
-")).
-Eval vm_compute in ("<<<M67>>>" ++ check (runes_of_ascii "options { charz =""1"" _x= """ ++ [128512]%N ++ runes_of_ascii """ u = string ; stringy=
-""" ++ [28040; 24687]%N ++ runes_of_ascii """ }
-// @lengthOf(
-")).
-Eval vm_compute in ("<<<M800>>>" ++ check (runes_of_ascii "packet A {
-  match k as n {
-    [1, 22, 007, 4] : B,
-    2 : C
-  },
-}")).
-Eval vm_compute in ("<<<M1506>>>" ++ check (runes_of_ascii "root packet P {
-    u8 s_u8,
-    repeat u8 r_u8,
-    u16 b_len,
-}")).
-Eval vm_compute in ("<<<M954>>>" ++ check (runes_of_ascii "packet A {
-    B b `
-x`,
-    B `
-x`,
-    repeat B bs `
-x`,
-}")).
-Eval vm_compute in ("<<<M774>>>" ++ check (runes_of_ascii "packet A {
-  match k as n {
-    [1] : B
-    2 : C
-  },
-}")).
-Eval vm_compute in ("<<<M1205>>>" ++ check (runes_of_ascii "packet body { i32 // c
-f32a `{ , }` , } options { }")).
-Eval vm_compute in ("<<<M1100>>>" ++ check (runes_of_ascii "// top
-MetaData // c0
-tag // c1
-{ // c2
+    // c0
+u
+    // c1
+{ // c2a
+  // c2b
 } // c3
 ")).
-Eval vm_compute in ("<<<M429>>>" ++ check (runes_of_ascii "packet uint8x
-{ match pack
-    as msg_type")).
-Eval vm_compute in ("<<<M971>>>" ++ check (runes_of_ascii "options {
-    a = ""\
-"";
-    b = ""\
-""
-}")).
-Eval vm_compute in ("<<<M1823>>>" ++ check (runes_of_ascii "  packet
-
-    A{
+Eval vm_compute in ("<<<M812>>>" ++ check (runes_of_ascii "packet A { Inner { match k as n { [1,22,007,4] : B, }, }, }")).
+Eval vm_compute in ("<<<M1802>>>" ++ check (runes_of_ascii "// c
+packet body {
+    i32 f32a `{ , }`,
 }
 
-    // c" ++ [65279]%N ++ runes_of_ascii "
-")).
-Eval vm_compute in ("<<<M1870>>>" ++ check (runes_of_ascii "options {
-    u8x = ""packet"";
+options {
 }")).
-Eval vm_compute in ("<<<M270>>>" ++ check (runes_of_ascii "  root packet msg_type
-{
+Eval vm_compute in ("<<<M1209>>>" ++ check (runes_of_ascii "packet body { i32 f32a `{ , }` // c
+, } options { }")).
+Eval vm_compute in ("<<<M1257>>>" ++ check (runes_of_ascii "
+root	packet
+
+P	{
+	hdr {u8  a,
+}  ,u8 
+x , 
 }
 ")).
-Eval vm_compute in ("<<<M1914>>>" ++ check (runes_of_ascii "
-
-  // trailing space 
+Eval vm_compute in ("<<<M951>>>" ++ check (runes_of_ascii "MetaData M {
+    u8 x `x
+`,
+    T t `x
+`,
+}")).
+Eval vm_compute in ("<<<M1067>>>" ++ check (runes_of_ascii "packet A {    u8 x, // c    u8 y,}")).
+Eval vm_compute in ("<<<M922>>>" ++ check (runes_of_ascii "root packet A {
+    u8 x `a
+b`,
+}")).
+Eval vm_compute in ("<<<M586>>>" ++ check (runes_of_ascii "
+packet
+    asx {match u128 as")).
+Eval vm_compute in ("<<<M381>>>" ++ check (runes_of_ascii "options{
+int
+=char[] ; }
+//
 ")).
-Eval vm_compute in ("<<<M1504>>>" ++ check (runes_of_ascii "  packet
+Eval vm_compute in ("<<<M326>>>" ++ check (runes_of_ascii "  options{// a // b
+}
+
+")).
+Eval vm_compute in ("<<<M1537>>>" ++ check (runes_of_ascii "  packet
 A {}// c" ++ [5760]%N ++ runes_of_ascii "
  
 ")).
-Eval vm_compute in ("<<<M1135>>>" ++ check (runes_of_ascii "MetaData u {
-// c
-}")).
-Eval vm_compute in ("<<<M1032>>>" ++ check (runes_of_ascii "// c" ++ [11]%N ++ runes_of_ascii "
+Eval vm_compute in ("<<<M103>>>" ++ check (runes_of_ascii "packet packetx	{ }")).
+Eval vm_compute in ("<<<M1047>>>" ++ check (runes_of_ascii "// c" ++ [8203]%N ++ runes_of_ascii "
 packet A {
 }")).
-Eval vm_compute in ("<<<M1029>>>" ++ check (runes_of_ascii "packet A {
-}// c" ++ [11]%N)).
-Eval vm_compute in ("<<<M626>>>" ++ check (runes_of_ascii "
-packet
-    as")).
-Eval vm_compute in ("<<<M758>>>" ++ check (runes_of_ascii "LE]u'")).
-Eval vm_compute in ("<<<M730>>>" ++ check (runes_of_ascii "//")).
+Eval vm_compute in ("<<<M1054>>>" ++ check (runes_of_ascii "packet A {
+}// c" ++ [6158]%N)).
+Eval vm_compute in ("<<<M712>>>" ++ check (runes_of_ascii "// @lengthOf(
+")).
+Eval vm_compute in ("<<<M252>>>" ++ check (runes_of_ascii " // c")).
+Eval vm_compute in ("<<<M728>>>" ++ check (runes_of_ascii "		")).
